@@ -19,7 +19,7 @@ from mcheck.props import c02
 ID = "C18"
 RULE = (
     "programs {one call, three calls, nested calls with a caught exception, recursion, generator rebinding its parameter over "
-    "3 resumptions, yield-from, coroutine with two awaits} x rates {None,1,2,3,10,100} x every RNG answer vector over "
+    "3 resumptions, yield-from, coroutine with two awaits, a mix, two interleaved generators} x rates {None,1,2,3,10,100} x every RNG answer vector over "
     "{0,1,N-1} (complete up to 6 draws, else <= 3 deviations from all-sample and from never-sample), one-call program: "
     "every r in range(N); state = (program, rate, answer vector) execution, transition = one draw; oracle: logged traces are a "
     "faithful ordered subset of the ground-truth frames, no residue, rate None/1 = unsampled, exact expected traced "
@@ -88,6 +88,8 @@ PROGRAMS: List[Tuple[str, str, bool]] = [
     ("generator-rebinding", "list(M.gen_rebind(5))", False),
     ("yield-from", "list(M.gen_outer(7))", False),
     ("coroutine", "DRIVE(M.coro(1))", False),
+    ("mixed", "(M.top(1), list(M.gen_rebind(2)), M.rec(1))", False),
+    ("two-generators-interleaved", "INTERLEAVE(M.gen_rebind(1), M.gen_inner(2))", False),
 ]
 RATES = [None, 1, 2, 3, 10, 100]
 
@@ -137,6 +139,19 @@ class FakeRandom:
         raise HarnessError(f"monkeytype.tracing used random.{name}, which the RNG seam does not own")
 
 
+def interleave(a: Any, b: Any) -> int:
+    n = 0
+    its = [a, b]
+    while its:
+        for it in list(its):
+            try:
+                next(it)
+                n += 1
+            except StopIteration:
+                its.remove(it)
+    return n
+
+
 def drive_all(c: Any) -> Any:
     try:
         c.send(None)
@@ -166,7 +181,7 @@ def run_once(M, files, expr: str, rate: Optional[int], fake: FakeRandom, prefix:
             with tracing.trace_calls(col, k, lambda code: code.co_filename in files, rate):
                 tracer = sys.getprofile()
                 try:
-                    eval(expr, {"M": M, "DRIVE": drive_all})
+                    eval(expr, {"M": M, "DRIVE": drive_all, "INTERLEAVE": interleave})
                 except Exception:  # noqa: BLE001
                     pass
                 residue = len(tracer.traces)
@@ -227,6 +242,9 @@ def alternatives(n: int) -> List[int]:
     return sorted({0, min(1, n - 1), n - 1})
 
 
+THOROUGH = [False]
+
+
 def explore_program(res: Result, M, files, pi: int, rate, fake: FakeRandom) -> None:
     name, expr, plain = PROGRAMS[pi]
     # calibration: how many draws does the all-sample run make?
@@ -237,8 +255,8 @@ def explore_program(res: Result, M, files, pi: int, rate, fake: FakeRandom) -> N
         raise HarnessError(f"sample_rate={rate} but the RNG seam was never consulted (seam lost)")
     if (not rate or rate == 1) and ndraw and rate is None:
         raise HarnessError("RNG consulted although no sample rate is set")
-    full = ndraw <= 6
-    bound = ndraw if full else 3
+    full = ndraw <= (8 if THOROUGH[0] else 6)
+    bound = ndraw if full else (5 if THOROUGH[0] else 3)
     seen_vectors = set()
     logged_counts = set()
 
@@ -338,6 +356,7 @@ def run(ctx: Ctx) -> Result:
 
     def work(ctx: Ctx, job) -> Result:
         res = Result()
+        THOROUGH[0] = ctx.tier == "thorough"
         M, files = load(ctx)
         explore_program(res, M, files, job[0], job[1], FakeRandom())
         if job[1] == 3:
@@ -346,7 +365,8 @@ def run(ctx: Ctx) -> Result:
 
     res = run_shards(ctx, work, jobs)
     res.obligations.setdefault("some-vector-skips-a-call-another-traces", False)
-    res.bounds["deviation_bound_beyond_6_draws"] = 3
+    res.bounds["complete_up_to_draws"] = 8 if ctx.tier == "thorough" else 6
+    res.bounds["deviation_bound_beyond"] = 5 if ctx.tier == "thorough" else 3
     return res
 
 
